@@ -144,7 +144,7 @@ def analyse_batch(job):
     os.makedirs(src_dir, exist_ok=True)
     texts = {}
     for p in progs:
-        text = p.variant_text() if job.get("variant") and p.slot is not None else p.text
+        text = p.variant_text(job["variant"]) if job.get("variant") and p.slot is not None else p.text
         texts[p.uid] = text
         with open(os.path.join(src_dir, f"{p.uid}.py"), "w") as f:
             f.write(text)
@@ -161,7 +161,7 @@ def analyse_batch(job):
     lianrun.run_lian(lianrun.lian_argv("semantic", "python", [src_dir], ws, st, ["-q"]))
     T = av.Tables(lianrun.ws_dir(ws), live_saves=mon.status_saves)
     ms = mon.summary()
-    res = {"tag": tag, "variant": bool(job.get("variant")), "programs": {}, "constants_ok": av.check_constants(),
+    res = {"tag": tag, "variant": int(job.get("variant") or 0), "programs": {}, "constants_ok": av.check_constants(),
            "space_rows": T.space_rows, "status_rows": T.status_rows, "evals": len(ms["evals"]), "execs": ms["execs"],
            "folds": len(ms["two_states"]), "stmt_state_calls": ms["stmt_state_calls"], "frames": len(ms["frames"]),
            "big": ms["big"], "wrapped": ms["wrapped"], "other_compiles": summarise_compiles(ms["compiles"]),
@@ -470,7 +470,7 @@ def side_const(node):
 # ---------------------------------------------------------------------------------------------------------------------
 # parent
 
-def make_jobs(chk, n_programs, side_dir):
+def make_jobs(chk, n_programs, side_dir, meta_every=1):
     rng = random.Random(chk.seed)
     base = rng.randrange(1 << 30)
     progs = []
@@ -481,9 +481,11 @@ def make_jobs(chk, n_programs, side_dir):
     for k in range(0, len(progs), BATCH):
         chunk = progs[k:k + BATCH]
         jobs.append({"tag": f"b{k // BATCH}", "programs": [p.to_case() for p in chunk], "side_dir": side_dir})
-        if any(p.slot is not None for p in chunk):
-            # same composition as the base batch (the order in which P2 visits methods depends on the whole project)
-            jobs.append({"tag": f"v{k // BATCH}", "programs": [p.to_case() for p in chunk], "variant": True, "side_dir": side_dir})
+        if any(p.slot is not None for p in chunk) and (k // BATCH) % meta_every == 0:
+            # same composition as the base batch (the order in which P2 visits methods depends on the whole project);
+            # two benign variants: what differs between them depends on the literal as data
+            jobs.append({"tag": f"v{k // BATCH}", "programs": [p.to_case() for p in chunk], "variant": 1, "side_dir": side_dir})
+            jobs.append({"tag": f"w{k // BATCH}", "programs": [p.to_case() for p in chunk], "variant": 2, "side_dir": side_dir})
     for x in gv.explosive_programs(f"s{chk.seed}"):
         jobs.append({"tag": f"x{x['uid']}", "programs": [], "explosive": [x], "side_dir": side_dir})
     return progs, jobs
@@ -522,9 +524,10 @@ def main():
         jobs = replay_jobs(case, side_dir)
         progs = []
     else:
-        progs, jobs = make_jobs(chk, 5000 if thorough else 200, side_dir)
+        progs, jobs = make_jobs(chk, 5000 if thorough else 200, side_dir, meta_every=3 if thorough else 1)
     results = {}
     variants = {}
+    variants2 = {}
     pending = list(jobs)
     wave = 0
     while pending and wave < 2:
@@ -585,7 +588,7 @@ def main():
             for sig, desc, det in v["frontend"]["fails"]:
                 chk.fail(sig, desc, dict(job_case(job), detail=det))
             for uid, pr in v["programs"].items():
-                (variants if v["variant"] else results)[uid] = pr
+                {0: results, 1: variants, 2: variants2}[v["variant"]][uid] = pr
         pending = retry
         wave += 1
     by_uid = {p.uid: p for p in progs}
@@ -623,10 +626,16 @@ def main():
             chk.fail(sig, desc, dict(case, detail=det))
         # monitor (ii)
         vr = variants.get(uid)
-        if vr is not None and not vr.get("dropped") and p is not None and p.slot is not None:
+        wr = variants2.get(uid)
+        if vr is not None and wr is not None and not vr.get("dropped") and not wr.get("dropped") and p is not None and p.slot is not None:
+            if vr["frames"] != wr["frames"] or vr["work"] != wr["work"]:
+                chk.count("metamorphic triples skipped: the two benign variants already differ in frames or work")
+                continue
             chk.count("metamorphic pairs compared")
             cls = p.slot[2]
-            same = [k for k in pr["concrete"] if vr["concrete"].get(k) == pr["concrete"][k]]
+            # a definition depends on the literal *as data* when the two benign variants give it different abstract values
+            data_dependent = {k for k in set(vr["digest"]) | set(wr["digest"]) if vr["digest"].get(k) != wr["digest"].get(k)}
+            same = [k for k in pr["concrete"] if vr["concrete"].get(k) == pr["concrete"][k] and k not in data_dependent]
             chk.count("definitions unaffected by the replaced literal whose abstract values were compared", len(same))
             diff = [k for k in same if pr["digest"].get(k) != vr["digest"].get(k)]
             if diff:
@@ -677,16 +686,17 @@ def strip_outer(text):
 
 
 def job_case(job):
-    return {"programs": job["programs"], "explosive": job.get("explosive", []), "variant": bool(job.get("variant")), "batch": True}
+    return {"programs": job["programs"], "explosive": job.get("explosive", []), "variant": int(job.get("variant") or 0), "batch": True}
 
 
 def replay_jobs(case, side_dir):
     if case.get("batch"):
         return [{"tag": "replay", "programs": case["programs"], "explosive": case.get("explosive", []),
-                 "variant": case.get("variant", False), "side_dir": side_dir}]
+                 "variant": int(case.get("variant") or 0), "side_dir": side_dir}]
     jobs = [{"tag": "replay", "programs": [case], "side_dir": side_dir}]
     if case.get("slot"):
-        jobs.append({"tag": "replayv", "programs": [case], "variant": True, "side_dir": side_dir})
+        jobs.append({"tag": "replayv", "programs": [case], "variant": 1, "side_dir": side_dir})
+        jobs.append({"tag": "replayw", "programs": [case], "variant": 2, "side_dir": side_dir})
     return jobs
 
 
